@@ -59,6 +59,7 @@ def expected_for(text, kind, where, structured):
 
 def run(rep, tier, seed, model_ok):
     rng = random.Random(seed)
+    parsechk.corpus_campaign(rep)
     n = 700 if tier == "quick" else 7000
     rep.cov["rule"] = ("(a) generated files in which directive comments (`breadlog:ignore` / `breadlog:no-kvp` in any letter "
                        "case, surrounding blanks, // or one-line /* */) and near-miss comments stand before, between and after "
